@@ -560,6 +560,22 @@ func c11Units(tier string) []Unit {
 			c11RtTable(c, []c11Ent{{c11Long(65533, 'k') + "@1", "v", false, 1}}, blk)
 			c11RtTable(c, []c11Ent{{c11Long(65534, 'k') + "@1", "v", false, 1}}, blk)
 		}
+		// one data block of more than 1 MiB (and of more than 2 MiB): the compressed stream is cut into chunks, a field
+		// may lie across a chunk boundary; as a bare block and as a table with a block size that keeps it in one block
+		for _, nBig := range []int{17, 40} {
+			var huge []c11Ent
+			for i := 0; i < nBig; i++ {
+				v := make([]byte, 65535)
+				for j := range v {
+					v[j] = byte((i*131 + j*7) % 251)
+				}
+				huge = append(huge, c11Ent{fmt.Sprintf("huge%02d@%d", i, 5), string(v), false, 5})
+			}
+			c11RtData(c, huge)
+			c11RtTable(c, huge, 4<<20)
+			c11RtWAL(c, huge, nBig/2)
+			c.NT(fmt.Sprintf("huge block %d", nBig))
+		}
 		var ikeys []string
 		ikeys = append(ikeys, "", "a@1", "ab@12", pre+"1@7", c11Long(65535, 'k'), c11Long(65536, 'k'))
 		c11RtIndex(c, ikeys)
